@@ -201,6 +201,7 @@ var schemaMutations = []schemaMutation{
 	})},
 	{"lookup_array_single_result", false, onLookup(func(r *rand.Rand, q *ast.Definition, f *ast.FieldDefinition) {
 		f.Arguments = ast.ArgumentDefinitionList{{Name: "ids", Type: ast.NonNullListType(ast.NonNullNamedType("ID", nil), nil)}}
+		f.Type = ast.NamedType(f.Type.Name(), nil)
 	})},
 	{"lookup_array_bad_arg", false, onLookup(func(r *rand.Rand, q *ast.Definition, f *ast.FieldDefinition) {
 		t := []*ast.Type{ast.NonNullListType(ast.NamedType("ID", nil), nil), ast.ListType(ast.NonNullNamedType("ID", nil), nil),
@@ -333,6 +334,46 @@ var schemaMutations = []schemaMutation{
 				{Name: "toB", Type: ast.NonNullNamedType("LoopB", nil)}, {Name: "leafA", Type: ast.NamedType("Int", nil)}}},
 			&ast.Definition{Kind: ast.Object, Name: "LoopB", Directives: nsd, Fields: ast.FieldList{
 				{Name: "toA", Type: ast.NonNullNamedType("LoopA", nil)}, {Name: "leafB", Type: ast.NamedType("Int", nil)}}})
+		q.Fields = append(q.Fields, &ast.FieldDefinition{Name: "loop", Type: ast.NonNullNamedType("LoopA", nil)})
+		return true
+	}},
+	// nullable links to a namespace the walk has already seen: a second link, a back edge, a self link, a diamond
+	{"ns_second_link_nullable", false, func(r *rand.Rand, doc *ast.SchemaDocument) bool {
+		for _, d := range doc.Definitions {
+			for _, f := range d.Fields {
+				if ft := docDef(doc, f.Type.Name()); ft != nil && ft.Directives.ForName("namespace") != nil && f.Type.NonNull && f.Type.Elem == nil {
+					d.Fields = append(d.Fields, &ast.FieldDefinition{Name: f.Name + "Again", Type: ast.NamedType(ft.Name, nil)})
+					return true
+				}
+			}
+		}
+		return false
+	}},
+	{"ns_loop_nullable_edge", false, func(r *rand.Rand, doc *ast.SchemaDocument) bool {
+		q := docDef(doc, "Query")
+		if q == nil || dirDef(doc, "namespace") == nil {
+			return false
+		}
+		nsd := ast.DirectiveList{{Name: "namespace"}}
+		switch r.Intn(3) {
+		case 0: // back edge of a cycle
+			doc.Definitions = append(doc.Definitions,
+				&ast.Definition{Kind: ast.Object, Name: "LoopA", Directives: nsd, Fields: ast.FieldList{
+					{Name: "toB", Type: ast.NonNullNamedType("LoopB", nil)}, {Name: "leafA", Type: ast.NamedType("Int", nil)}}},
+				&ast.Definition{Kind: ast.Object, Name: "LoopB", Directives: nsd, Fields: ast.FieldList{
+					{Name: "toA", Type: ast.NamedType("LoopA", nil)}, {Name: "leafB", Type: ast.NamedType("Int", nil)}}})
+		case 1: // self link
+			doc.Definitions = append(doc.Definitions,
+				&ast.Definition{Kind: ast.Object, Name: "LoopA", Directives: nsd, Fields: ast.FieldList{
+					{Name: "parent", Type: ast.NamedType("LoopA", nil)}, {Name: "leafA", Type: ast.NamedType("Int", nil)}}})
+		default: // diamond: the second path to the leaf is nullable
+			doc.Definitions = append(doc.Definitions,
+				&ast.Definition{Kind: ast.Object, Name: "LoopA", Directives: nsd, Fields: ast.FieldList{
+					{Name: "left", Type: ast.NonNullNamedType("LoopB", nil)}, {Name: "right", Type: ast.NonNullNamedType("LoopC", nil)}}},
+				&ast.Definition{Kind: ast.Object, Name: "LoopB", Directives: nsd, Fields: ast.FieldList{{Name: "leaf", Type: ast.NonNullNamedType("LoopD", nil)}}},
+				&ast.Definition{Kind: ast.Object, Name: "LoopC", Directives: nsd, Fields: ast.FieldList{{Name: "leaf", Type: ast.NamedType("LoopD", nil)}}},
+				&ast.Definition{Kind: ast.Object, Name: "LoopD", Directives: nsd, Fields: ast.FieldList{{Name: "leafD", Type: ast.NamedType("Int", nil)}}})
+		}
 		q.Fields = append(q.Fields, &ast.FieldDefinition{Name: "loop", Type: ast.NonNullNamedType("LoopA", nil)})
 		return true
 	}},
